@@ -476,7 +476,10 @@ Proof.
   - destruct (holds s t); [|discriminate]. destruct (find id (ints s)) as [w|] eqn:Ef; [|discriminate].
     destruct (Bool.eqb performed (negb (w_dead w))) eqn:E; [|discriminate]. inversion H; subst.
     destruct (find_in _ _ _ Ef) as [Hw _]. rewrite <- (i_dead s' HI w Hw), E. reflexivity.
-  - destruct (quiet_thread t (ints s)); [|discriminate]. pfin H.
+  - destruct (quiet_thread t (ints s)); [|discriminate].
+    assert (G : got_termination t (reaped s) (ints s) = true).
+    { unfold got_termination. apply forallb_forall. intros w Hw. rewrite (i_dead s HI w Hw), eqb_reflx. apply orb_true_r. }
+    rewrite G. pfin H.
 Qed.
 
 Theorem monitor_accepts : forall ls, accepts ls = true -> monitor ls = true.
